@@ -26,8 +26,8 @@ def monitor(c):
     # 1. the listing: same set, per layer, nothing executed
     lst = getattr(c, "listing", None)
     if lst is not None:
-        if any(e["ev"] not in ("import", "modimport") for e in lst.events):
-            return ("--list-tests executed test or layer code: %r" % [e["ev"] for e in lst.events if e["ev"] not in ("import", "modimport")][:5],
+        if any(e["ev"] not in ("import", "modimport", "exit") for e in lst.events):
+            return ("--list-tests executed test or layer code: %r" % [e["ev"] for e in lst.events if e["ev"] not in ("import", "modimport", "exit")][:5],
                     "C03:list-runs")
         lg = cw.listing_groups(w, lst.stdout)
         if sorted((li, tuple(sorted(ts))) for li, ts in lg) != sorted((li, tuple(sorted(ts))) for li, ts in c.groups):
@@ -276,7 +276,78 @@ def shuffle_modes(ctx, n=None):
             ctx.violation("seed %d: %s" % (seed, bad), case, signature="modes-disagree")
 
 
+def alias_cases(ctx, n=None):
+    """a layer object known under two names: some tests declare their layer by a dotted name (a string) that resolves
+    to the very object other tests refer to directly.  Every selected test is listed once and executed once - in the
+    sequential run and in the -j N run -, with its layer set up.  (Decided by the statement alone: the model identifies
+    a layer with its name.)"""
+    import concurrent.futures
+    import os
+    import shutil
+    rng = ctx.rng
+    n = n if n is not None else (4 if ctx.quick() else 60)
+    jobs = []
+    for i in range(n):
+        w = worlds.gen_world(rng, n_layers=rng.choice([2, 3]), tests_per_layer=(2, 4), kinds=["pass", "pass", "fail"],
+                             p_fault=0.0, p_write=0.0)
+        for l in w["layers"]:
+            l.pop("falsy", None)
+            if l["kind"] != "unit":
+                l["setUp"] = l["tearDown"] = True
+        # declarations on leaves only; about half of the tests of every non-unit layer use the alias
+        for m in w["modules"].values():
+            m["suites"] = []
+        for t in w["tests"]:
+            t.pop("doctest", None)
+            unit = w["layers"][t["layer"]]["kind"] == "unit"
+            leaf = {"t": "leaf", "id": t["id"], "lyr": None if unit else t["layer"]}
+            if not unit and rng.random() < 0.5:
+                leaf["lyrAlias"] = True
+            w["modules"][t["module"]]["suites"].append(leaf)
+        jobs.append((i, w, rng.choice([2, 3])))
+
+    def one(job):
+        i, w, j = job
+        d = os.path.join(ctx.tmp, "al%05d" % i)
+        worlds.materialize(w, d)
+        res = {"list": worlds.run_real(w, {"verbose": 1, "list": True}, d),
+               "seq": worlds.run_real(w, {"verbose": 1}, d),
+               "par": worlds.run_real(w, {"verbose": 1, "processes": j}, d)}
+        shutil.rmtree(d, ignore_errors=True)
+        return res
+    with concurrent.futures.ThreadPoolExecutor(max_workers=4) as ex:
+        results = list(ex.map(one, jobs))
+    import re
+    for (i, w, j), res in zip(jobs, results):
+        case = {"world": w, "processes": j}
+        ctx.count(("alias", str(w)[:400], j), nontrivial=True, sample=None)
+        ctx.bump("aliased-layer-worlds")
+        ids = sorted(t["id"] for t in w["tests"])
+        layer_of = {t["id"]: t["layer"] for t in w["tests"]}
+        listed = sorted(int(x) for x in re.findall(r"^\s+t(\d+) \(", res["list"].stdout, re.M))
+        bad = None
+        if listed != ids:
+            bad = "--list-tests lists the tests %r, the selected tests are %r (missing %r)" % (
+                listed, ids, sorted(set(ids) - set(listed)))
+        for mode in ("seq", "par"):
+            if bad:
+                break
+            ran = sorted(e["t"] for e in res[mode].events if e.get("ev") == "tstart")
+            if ran != ids:
+                bad = "the %s run executes the tests %r, the selected tests are %r (missing %r)" % (
+                    "sequential" if mode == "seq" else "-j %d" % j, ran, ids, sorted(set(ids) - set(ran)))
+                break
+            for e in res[mode].events:
+                if e.get("ev") == "ph" and isinstance(e.get("sl"), list) and \
+                        w["layers"][layer_of[e["t"]]]["kind"] != "unit" and layer_of[e["t"]] not in e["sl"]:
+                    bad = "test t%d runs while its layer %d is not set up (set up: %r)" % (e["t"], layer_of[e["t"]], e["sl"])
+                    break
+        if bad:
+            ctx.violation("a layer known under two names: " + bad, case, signature="C03:alias")
+
+
 def run(ctx):
+    alias_cases(ctx)
     cw.standard_check(ctx, cw.corpus_cases(PROP) + gen_cases(ctx), PROP, KINDS, "runner.tests", monitor, list_first=True)
     shuffle_modes(ctx)
 
